@@ -19,7 +19,10 @@ Vals == { X(1, <<0>>, 0), X(1, <<1>>, 0), X(0 - 1, <<2, 5>>, 0 - 1), X(1, <<5>>,
 Lists == UNION {[1..n -> Vals] : n \in 0..MaxLen}
 Names == {"sum", "max", "min", "average", "count"}
 Agg(nm, xs) == [mode |-> "num", flags |-> [calls |-> <<[fn |-> "agg", name |-> nm, xs |-> xs]>>]]
-Init == (\E nm \in Names, xs \in Lists : c = Agg(nm, xs)) /\ done = FALSE
+\* longer lists of like magnitudes: the mean is in range even where the sum is not
+Big == {X(1, <<1>>, 308), X(0 - 1, <<1>>, 308), X(1, <<1, 7>>, 307), X(1, <<1, 5>>, 307), X(1, <<9>>, 307)}
+LongLists == {[i \in 1..n |-> x] : n \in 3..6, x \in Big} \cup {<<x, x, x, y>> : x \in Big, y \in Big} \cup {<<x, y, x, y, x>> : x \in Big, y \in Big}
+Init == ((\E nm \in Names, xs \in Lists : c = Agg(nm, xs)) \/ (\E nm \in Names, xs \in LongLists : c = Agg(nm, xs))) /\ done = FALSE
 Next == ~done /\ done' = TRUE /\ UNCHANGED c
 Spec == Init /\ [][Next]_vars
 Emit == done => PrintT("CASE " \o ToJson(c))
